@@ -30,6 +30,8 @@ CLAIMED = {
          'Decides that the byte account is balanced with one measure, that the drop guard is exactly the stated predicate with that measure, which packet types are droppable, that every path through each sink handles the packet exactly once and keeps the callback unless dropping, and that hops write only hops/from.address/drop_fun. Run-time values of the predicate are not decided.', '4/C10'),
  'C11': ('static: overload-pair enumeration and delegation check, per-field reset dataflow on close/destructor, closed writer/user tables of the registries, guard-dominance (found && owner) on erase/re-point, reachability of the insert from error assignments',
          'Decides that close() really closes (all 21 overload pairs agree), that close/destructor/re-open release binding and forwarder on every path, that move re-points and neutralises the source, that the TCP and UDP registries have disjoint closed user sets, that erase/re-point need found && owner, that look-ups are checked against end(), and that no error path reaches the insert. Registry contents over histories and the ephemeral-port scan are not decided.', '4/C11'),
+ 'C12': ('static: escape analysis of raw endpoint pointers into long-lived holders (packet callbacks, posted/timer closures, forwarder), guard-dominance on every m_channel dereference with interprocedural caller check, field-coverage of move constructors, path rules on the catch-all and timer removal',
+         'Decides that each protection mechanism is applied wherever it is needed: the drop callback reaches its socket only through the resettable forwarder, which close/destructor detach and move re-points; timer completions return on abort before touching members; every m_channel dereference is guarded, in a guarded helper, or tabled with its invariant; move constructors transfer every field; the catch-all works from copies; timer removal searches the whole equal-expiry range. Absence of all UB on all schedules is not decided.', '4/C12'),
 }
 
 NOT_YET = {}
